@@ -481,6 +481,9 @@ func c09Any(c *engine.Ctx, in []byte, args map[string]string) {
 			}
 		}
 	}
+	if lexErr != io.EOF {
+		c09AfterError(c, src, args["tmpl"])
+	}
 	inTag := false
 	for _, t := range toks {
 		switch t.tt {
@@ -510,6 +513,46 @@ func c09Any(c *engine.Ctx, in []byte, args map[string]string) {
 		if args["tmpl"] == "" && t.tmpl {
 			c.Fail("template-without-delimiters", fmt.Sprintf("input %q: HasTemplate() true without delimiters configured", src))
 			return
+		}
+	}
+}
+
+// c09AfterError: the structural clause holds on every input, also for what the lexer returns when the caller goes on
+// after an error report that is not the end of the input.
+func c09AfterError(c *engine.Ctx, src []byte, dialect string) {
+	in := append(make([]byte, 0, len(src)+1), src...)
+	z := parse.NewInputBytes(in)
+	var l *html.Lexer
+	if dialect == "" {
+		l = html.NewLexer(z)
+	} else {
+		l = html.NewTemplateLexer(z, htmlDialects[dialect])
+	}
+	inTag, sawError := false, false
+	for i := 0; i < 4*len(src)+8; i++ {
+		tt, _ := l.Next()
+		switch tt {
+		case html.ErrorToken:
+			if l.Err() == io.EOF {
+				return
+			}
+			if sawError && z.Offset() >= len(src) {
+				return // the first error is what Err() keeps reporting at the end
+			}
+			sawError, inTag = true, false
+		case html.StartTagToken:
+			inTag = true
+		case html.AttributeToken:
+			if !inTag && sawError {
+				c.Fail("attribute-outside-tag", fmt.Sprintf("input %q: Attribute token outside a start tag after an error report", src))
+				return
+			}
+		case html.StartTagCloseToken, html.StartTagVoidToken:
+			if !inTag && sawError {
+				c.Fail("closer-outside-tag", fmt.Sprintf("input %q: %s without an open start tag after an error report", src, tt))
+				return
+			}
+			inTag = false
 		}
 	}
 }
@@ -697,7 +740,7 @@ func c09Work(c *engine.Ctx) {
 func init() {
 	register(&engine.Check{
 		ID: "C09", Level: "exploration",
-		Rule:        "documents = every sequence of ≤2 (3) constructs from a catalogue of ~75 (text incl. stray '<', comments of every closing form, bogus comments, doctype in three cases, CDATA, end tags with whitespace, start tags × 13 attribute forms × closers × whitespace, svg/math subtrees with quoted end-tag look-alikes), plain and (≤2 constructs) under three dialects: token list (type, data, Text/AttrKey lower-cased, AttrVal verbatim, HasTemplate) equals the list known by construction; 7 raw-text elements × every content of ≤4 (5) fragments over {<, /, </, name, NAME, namex, <!--, -->, <script, </script, >, space, a, -, ', newline} × 3 tails × 2 start-tag spellings: the text token must end exactly where a transcription of the HTML tokenizer's RCDATA/RAWTEXT/script-data (double-escape) states ends the content; six template dialects × 10 region bodies (quotes, escaped quotes, fake end delimiter, and the quoted terminator of the surrounding token) × 29 placements with expected tokens (text, attribute names and values, raw text incl. plaintext and the escaped script states, comments of every kind, doctype, CDATA, end tags, svg/math); attribute/tag structure invariants on all byte strings ≤3-5 atoms over the HTML alphabets × dialects",
+		Rule:        "documents = every sequence of ≤2 (3) constructs from a catalogue of ~75 (text incl. stray '<', comments of every closing form, bogus comments, doctype in three cases, CDATA, end tags with whitespace, start tags × 13 attribute forms × closers × whitespace, svg/math subtrees with quoted end-tag look-alikes), plain and (≤2 constructs) under three dialects: token list (type, data, Text/AttrKey lower-cased, AttrVal verbatim, HasTemplate) equals the list known by construction; 7 raw-text elements × every content of ≤4 (5) fragments over {<, /, </, name, NAME, namex, <!--, -->, <script, </script, >, space, a, -, ', newline} × 3 tails × 2 start-tag spellings: the text token must end exactly where a transcription of the HTML tokenizer's RCDATA/RAWTEXT/script-data (double-escape) states ends the content; six template dialects × 10 region bodies (quotes, escaped quotes, fake end delimiter, and the quoted terminator of the surrounding token) × 29 placements with expected tokens (text, attribute names and values, raw text incl. plaintext and the escaped script states, comments of every kind, doctype, CDATA, end tags, svg/math); attribute/tag structure invariants (also after an error report that is not the end of the input) on all byte strings ≤3-5 atoms over the HTML alphabets × dialects",
 		Assumptions: []string{"an end tag is 'matching' when its name is followed by whitespace, '/' or '>' (HTML tokenizer: appropriate end tag token)", "html.ToHash is covered by C16"},
 		Setup:       c09Setup, Work: c09Work,
 	})
